@@ -14,7 +14,7 @@
 
    The state is `None` (memo_prec = -1, memo_val = None) or `Some (memo_prec, memo_val)`.  Requests are
    non-negative precisions.  `f` is the undecorated fixed-point function, `np` the map prec |-> newprec
-   (the concrete double-precision expression int(prec*1.05+10) is modelled exactly in [np105] below and
+   (the concrete double-precision expression int(prec*1.05+10) is modelled exactly by [np105] in Check.v and
    compared with the live expression by the driver for every request of the stated domain).
 
    Theorems (by induction over ANY request list):
